@@ -84,6 +84,7 @@ var props = map[string]*prop{
 			regress,
 			{name: "pairs", run: "^TestC13_Pairs$", shards: [2]int{8, 16}},
 			{name: "histories", run: "^TestC13_Histories$", shards: [2]int{8, 16}, checks: [2]int{40, 3000}},
+			{name: "machine", run: "^TestC13_Machine$", shards: [2]int{4, 16}, checks: [2]int{600, 30000}},
 		},
 		assumptions: baseAssumptions,
 	},
@@ -166,6 +167,7 @@ var props = map[string]*prop{
 		jobs: []job{
 			regress,
 			{name: "list", run: "^TestC08_List$", shards: [2]int{1, 10}},
+			{name: "source", run: "^TestC08_Source$"},
 			{name: "back", run: "^TestC08_Back$", shards: [2]int{4, 16}},
 		},
 		assumptions: baseAssumptions,
